@@ -7,6 +7,7 @@ import (
 	"encoding/json"
 	"fmt"
 	"os"
+	"path/filepath"
 	"strconv"
 	"strings"
 	"syscall"
@@ -476,12 +477,15 @@ func TestC01E2E(t *testing.T) {
 // ---------------------------------------------------------------- C17: generated configuration started for real
 
 const c17E2ERule = " | end-to-end stage: generated ports / worker counts / stats port given through environment, file and command line; the real binary is started and the effective values are observed " +
-	"(datagrams sent to the expected UDP ports move that protocol's UDPCount, Workers in /flow, stats API on the expected port)"
+	"(datagrams sent to the expected UDP ports move that protocol's UDPCount, Workers in /flow, stats API on the expected port); the <protocol>-enabled switches and the two cache file paths are given the same way " +
+	"(a protocol that resolves to disabled runs no workers and receives nothing; at shutdown the cache files appear at the effective paths and at no other candidate path)"
 
 type c17E2ECase struct {
 	// per setting: which sources give it (bit 0 env, 1 file, 2 cli)
 	Masks   map[string]int `json:"masks"`
 	Workers map[string]int `json:"workers"` // values per source are derived: env = w, file = w+1, cli = w+2
+	// Bools: for the <protocol>-enabled switches, the value each source gives (bit 0 env, 1 file, 2 cli; set = true)
+	Bools map[string]int `json:"bools,omitempty"`
 }
 
 func runC17E2E(c *c17E2ECase) (v verdict, sig string, err error) {
@@ -574,6 +578,65 @@ func runC17E2E(c *c17E2ECase) (v verdict, sig string, err error) {
 			cfg.Extra[s.key] = strconv.Itoa(s.val(def))
 		}
 	}
+	// enable switches: each source that gives the switch gives the value of its bit in Bools; default true
+	enabled := map[string]bool{}
+	enKeys := map[string]string{"ipfix": "ipfix-enabled", "nf9": "netflow9-enabled", "nf5": "netflow5-enabled", "sflow": "sflow-enabled"}
+	for _, proto := range []string{"ipfix", "nf9", "nf5", "sflow"} {
+		key := enKeys[proto]
+		m, bits := c.Masks[key], c.Bools[key]
+		enabled[proto] = true
+		for bit, src := range []string{"env", "file", "cli"} {
+			if m&(1<<uint(bit)) == 0 {
+				continue
+			}
+			val := bits&(1<<uint(bit)) != 0
+			switch src {
+			case "env":
+				cfg.Env = append(cfg.Env, "VFLOW_"+strings.ToUpper(strings.ReplaceAll(key, "-", "_"))+"="+strconv.FormatBool(val))
+			case "file":
+				cfg.Extra[key] = strconv.FormatBool(val)
+			case "cli":
+				cfg.Args = append(cfg.Args, "-"+key+"="+strconv.FormatBool(val))
+			}
+			enabled[proto] = val
+		}
+		v.label(m != 0, "enable-switch-given")
+		v.label(!enabled[proto], "protocol-effectively-disabled")
+	}
+	cfg.ReadyWithout = map[string]bool{}
+	for proto, on := range enabled {
+		if !on {
+			cfg.ReadyWithout[proto] = true
+		}
+	}
+	// cache file paths: one candidate file per source; the effective one is written at shutdown
+	cacheKeys := map[string]string{"ipfix": "ipfix-tpl-cache-file", "nf9": "netflow9-tpl-cache-file"}
+	effCache := map[string]string{}
+	candCache := map[string][]string{}
+	for _, proto := range []string{"ipfix", "nf9"} {
+		key := cacheKeys[proto]
+		m := c.Masks[key]
+		if m == 0 {
+			m = 2 // never the built-in default under /tmp
+		}
+		cfg.Extra[key] = "~drop~"
+		for bit, src := range []string{"env", "file", "cli"} {
+			if m&(1<<uint(bit)) == 0 {
+				continue
+			}
+			path := filepath.Join(dir, proto+"."+src+".templates")
+			candCache[proto] = append(candCache[proto], path)
+			switch src {
+			case "env":
+				cfg.Env = append(cfg.Env, "VFLOW_"+strings.ToUpper(strings.ReplaceAll(key, "-", "_"))+"="+path)
+			case "file":
+				cfg.Extra[key] = fmt.Sprintf("%q", path)
+			case "cli":
+				cfg.Args = append(cfg.Args, "-"+key, path)
+			}
+			effCache[proto] = path
+		}
+	}
 	proc, e := startVflowRaw(dir, def, cfg)
 	if e != nil {
 		if proc != nil && proc.exited() {
@@ -588,12 +651,20 @@ func runC17E2E(c *c17E2ECase) (v verdict, sig string, err error) {
 	}()
 	// the four protocols start concurrently with the stats listener: wait until all of them report workers
 	fs, _ := waitStats(proc, 5*time.Second, func(fs *flowStats) bool {
-		return fs.IPFIX.Workers > 0 && fs.NetflowV9.Workers > 0 && fs.NetflowV5.Workers > 0 && fs.SFlow.Workers > 0
+		return (fs.IPFIX.Workers > 0 || !enabled["ipfix"]) && (fs.NetflowV9.Workers > 0 || !enabled["nf9"]) &&
+			(fs.NetflowV5.Workers > 0 || !enabled["nf5"]) && (fs.SFlow.Workers > 0 || !enabled["sflow"])
 	})
 	if fs == nil {
 		return v, "stats", fmt.Errorf("stats API does not answer on the expected port")
 	}
-	for k, w := range map[string]*protoStats{"ipfix-workers": fs.IPFIX, "netflow9-workers": fs.NetflowV9, "netflow5-workers": fs.NetflowV5, "sflow-workers": fs.SFlow} {
+	for proto, k := range map[string]string{"ipfix": "ipfix-workers", "nf9": "netflow9-workers", "nf5": "netflow5-workers", "sflow": "sflow-workers"} {
+		w := fs.of(proto)
+		if !enabled[proto] {
+			if w.Workers != 0 {
+				return v, "precedence", fmt.Errorf("%s given by sources mask %03b with values %03b resolves to false, but the protocol runs %d workers", enKeys[proto], c.Masks[enKeys[proto]], c.Bools[enKeys[proto]], w.Workers)
+			}
+			continue
+		}
 		if int(w.Workers) != effW[k] {
 			return v, "precedence", fmt.Errorf("%s given by sources mask %03b: %d workers running, want %d (command line > file > environment > default)", k, c.Masks[k], w.Workers, effW[k])
 		}
@@ -609,13 +680,35 @@ func runC17E2E(c *c17E2ECase) (v verdict, sig string, err error) {
 	}{{"ipfix", eff.IPFIX}, {"nf9", eff.NF9}, {"nf5", eff.NF5}, {"sflow", eff.SFlow}} {
 		before, _ := proc.flowStats()
 		ex.send(pr.port, []byte{0, 0, 0, 1})
+		if !enabled[pr.proto] {
+			// a disabled protocol listens nowhere
+			_, moved := waitStats(proc, 300*time.Millisecond, func(fs *flowStats) bool { return fs.of(pr.proto).UDPCount > before.of(pr.proto).UDPCount })
+			if moved {
+				return v, "precedence", fmt.Errorf("%s resolves to false (masks %v, values %v) but the protocol receives datagrams on port %d", enKeys[pr.proto], c.Masks, c.Bools, pr.port)
+			}
+			continue
+		}
 		_, ok := waitStats(proc, 3*time.Second, func(fs *flowStats) bool { return fs.of(pr.proto).UDPCount > before.of(pr.proto).UDPCount })
 		if !ok {
 			return v, "precedence", fmt.Errorf("%s listener is not on port %d, which the sources (masks %v) make effective", pr.proto, pr.port, c.Masks)
 		}
 	}
 	proc.signal(syscall.SIGTERM)
-	proc.waitExit(6 * time.Second)
+	if !proc.waitExit(6 * time.Second) {
+		return v, "no-exit", fmt.Errorf("collector with the generated configuration (masks %v, enable values %v) did not exit within 6 s of SIGTERM", c.Masks, c.Bools)
+	}
+	// the template caches are written at shutdown to the effective paths, and nowhere else
+	for _, proto := range []string{"ipfix", "nf9"} {
+		for _, path := range candCache[proto] {
+			_, err := os.Stat(path)
+			switch {
+			case path == effCache[proto] && enabled[proto] && err != nil:
+				return v, "precedence", fmt.Errorf("%s given by sources mask %03b: no cache file at the effective path %s after shutdown", cacheKeys[proto], c.Masks[cacheKeys[proto]], filepath.Base(path))
+			case path != effCache[proto] && err == nil:
+				return v, "precedence", fmt.Errorf("%s given by sources mask %03b: cache written to %s, effective path is %s", cacheKeys[proto], c.Masks[cacheKeys[proto]], filepath.Base(path), filepath.Base(effCache[proto]))
+			}
+		}
+	}
 	v.NT = true
 	v.label(true, "e2e")
 	return v, "", nil
@@ -642,7 +735,14 @@ func TestC17E2E(t *testing.T) {
 	col.Rule += c17E2ERule
 	keys := []string{"ipfix-port", "netflow9-port", "netflow5-port", "sflow-port", "ipfix-workers", "netflow9-workers", "netflow5-workers", "sflow-workers"}
 	gen := rapid.Custom(func(t *rapid.T) c17E2ECase {
-		c := c17E2ECase{Masks: map[string]int{}, Workers: map[string]int{}}
+		c := c17E2ECase{Masks: map[string]int{}, Workers: map[string]int{}, Bools: map[string]int{}}
+		for _, k := range []string{"ipfix-enabled", "netflow9-enabled", "netflow5-enabled", "sflow-enabled"} {
+			c.Masks[k] = rapid.SampledFrom([]int{0, 0, 0, 1, 2, 4, 3, 5, 6, 7}).Draw(t, "enmask")
+			c.Bools[k] = rapid.IntRange(0, 7).Draw(t, "envals")
+		}
+		for _, k := range []string{"ipfix-tpl-cache-file", "netflow9-tpl-cache-file"} {
+			c.Masks[k] = rapid.SampledFrom([]int{2, 1, 4, 3, 6, 5, 7}).Draw(t, "cachemask")
+		}
 		for _, k := range keys {
 			c.Masks[k] = rapid.SampledFrom([]int{7, 6, 5, 3, 4, 2, 1, 2, 6}).Draw(t, "mask")
 			if strings.HasSuffix(k, "-port") && c.Masks[k] == 0 {
